@@ -44,6 +44,7 @@ typedef struct {
 	/* results */
 	int hs_ret; int app_ok; size_t app_got; int app_err; int close_seen; uint8_t secrets[400]; size_t secrets_len; int cipher_suite, protocol; long draws; int extra_data; /* application data received after the script (C10/C11) */
 	TLS_CONNECT *conn_out;
+	int via_files; /* configure the endpoint the way an application does: PEM files + the tls_ctx_* interface (instead of filling TLS_CTX directly) */
 } ep_t;
 static uint8_t APPDATA[2][70000];
 static void app_fill(void) { for (size_t i = 0; i < sizeof APPDATA[0]; i++) { APPDATA[0][i] = (uint8_t)(i * 7 + 1 + (i >> 8)); APPDATA[1][i] = (uint8_t)(i * 13 + 5 + (i >> 7)); } }
@@ -56,7 +57,15 @@ static int ep_task(void *arg) {
 	memset(&ctx, 0, sizeof ctx); ctx.protocol = PROTO[e->proto]; ctx.is_client = e->is_client; ctx.cipher_suites[0] = CIPHER[e->proto]; ctx.cipher_suites_cnt = 1; ctx.verify_depth = 4; ctx.quiet = 1;
 	if (!e->is_client || e->mutual) { ctx.certs = (uint8_t *)e->own->certs; ctx.certslen = e->own->certslen; ctx.signkey = e->own->signkey; ctx.kenckey = e->own->kenckey; }
 	if (e->trust) { ctx.cacerts = (uint8_t *)e->trust->cacerts; ctx.cacertslen = e->trust->cacertslen; }
+	if (e->via_files) { char dir[64] = "/tmp/vfilesXXXXXX", f1[96], f2[96], f3[96], f4[96]; if (!mkdtemp(dir)) { e->hs_ret = -79; return -79; } snprintf(f1, sizeof f1, "%s/chain.pem", dir); snprintf(f2, sizeof f2, "%s/signkey.pem", dir); snprintf(f3, sizeof f3, "%s/enckey.pem", dir); snprintf(f4, sizeof f4, "%s/ca.pem", dir);
+		int ok = 1, cs[1] = { CIPHER[e->proto] }; FILE *f; memset(&ctx, 0, sizeof ctx);
+		if (!e->is_client || e->mutual) { if ((f = fopen(f1, "w"))) { ok &= x509_certs_to_pem(e->own->certs, e->own->certslen, f) == 1; fclose(f); } else ok = 0; if ((f = fopen(f2, "w"))) { ok &= sm2_private_key_info_encrypt_to_pem(&e->own->signkey, "file-pass", f) == 1; fclose(f); } else ok = 0; if ((f = fopen(f3, "w"))) { ok &= sm2_private_key_info_encrypt_to_pem(&e->own->kenckey, "enc-pass", f) == 1; fclose(f); } else ok = 0; }
+		if (e->trust) { if ((f = fopen(f4, "w"))) { ok &= x509_certs_to_pem(e->trust->cacerts, e->trust->cacertslen, f) == 1; fclose(f); } else ok = 0; }
+		ok = ok && tls_ctx_init(&ctx, PROTO[e->proto], e->is_client) == 1 && tls_ctx_set_cipher_suites(&ctx, cs, 1) == 1; if (ok && e->trust) ok = tls_ctx_set_ca_certificates(&ctx, f4, 4) == 1;
+		if (ok && (!e->is_client || e->mutual)) ok = (e->proto == P_TLCP && !e->is_client) ? tls_ctx_set_tlcp_server_certificate_and_keys(&ctx, f1, f2, "file-pass", f3, "enc-pass") == 1 : tls_ctx_set_certificate_and_key(&ctx, f1, f2, "file-pass") == 1;
+		ctx.quiet = 1; unlink(f1); unlink(f2); unlink(f3); unlink(f4); rmdir(dir); if (!ok) { e->hs_ret = -78; return -78; } }
 	if (tls_init(conn, &ctx) != 1) { e->hs_ret = -77; return -77; }
+	if (e->via_files) tls_ctx_cleanup(&ctx);
 	conn->sock = e->is_client ? VN_CLIENT_FD : VN_SERVER_FD;
 	if (ep_hook) ep_hook(e, conn, 0);
 	e->hs_ret = tls_do_handshake(conn); e->draws = venv_cur()->draws;
